@@ -98,6 +98,17 @@ def generate(repo):
     _guard_call(mod)
     return body + '\n' + _has_tilt(mod), notes + ['_has_tilt: structural translation of the any-field loop']
 
+def _guarded(fn):
+    """any structural surprise while walking the source (missing attribute, index, key) is a refusal of the translator"""
+    def wrapped(repo):
+        try:
+            return fn(repo)
+        except Refuse:
+            raise
+        except (AttributeError, IndexError, KeyError, TypeError, ValueError) as e:
+            raise Refuse(f'source structure changed ({type(e).__name__}: {e})')
+    return wrapped
+
 MODULES = [
-    {'name': 'FftScratch', 'src': 'lentil/propagate.py', 'generator': generate, 'props': ['C09']},
+    {'name': 'FftScratch', 'src': 'lentil/propagate.py', 'generator': _guarded(generate), 'props': ['C09']},
 ]
